@@ -2,6 +2,7 @@ package c19
 
 import (
 	"bufio"
+	"encoding/binary"
 	"fmt"
 	"sync"
 	"time"
@@ -10,6 +11,7 @@ import (
 	"github.com/influxdata/kapacitor/keyvalue"
 	"github.com/influxdata/kapacitor/udf"
 	"github.com/influxdata/kapacitor/udf/agent"
+	"google.golang.org/protobuf/proto"
 )
 
 // recDiag is the udf.Diagnostic of a session: it records every error the server reports.
@@ -87,6 +89,9 @@ type session struct {
 	mu        sync.Mutex
 	outs      []edge.Message
 	outClosed chan struct{}
+	// pumpMu: the abort callback waits for a send in progress, as UDFNode.abortedCallback waits for its
+	// input goroutine (the server closes its input channel right after the callback)
+	pumpMu sync.RWMutex
 }
 
 func newSession(o sessOpts) *session {
@@ -112,7 +117,11 @@ func newSession(o sessOpts) *session {
 	var abortOnce, killOnce sync.Once
 	// production wiring (UDFSocket.Open / UDFProcess.Open): a bufio.Reader around the peer's output
 	s.srv = udf.NewServer("task", "node", bufio.NewReader(s.fromAgent), s.toAgent, s.diag, o.Timeout,
-		func() { abortOnce.Do(func() { close(s.aborted) }) },
+		func() {
+			abortOnce.Do(func() { close(s.aborted) })
+			s.pumpMu.Lock()
+			s.pumpMu.Unlock()
+		},
 		func() {
 			killOnce.Do(func() { close(s.killed) })
 			s.toAgent.Close()
@@ -144,6 +153,13 @@ func (s *session) Outs() []edge.Message {
 // send hands m to the server's input channel; false if the server aborted instead of taking it
 // (what UDFNode's pump does: select on In() and the abort callback).
 func (s *session) send(m edge.Message, deadline time.Duration) (bool, error) {
+	s.pumpMu.RLock()
+	defer s.pumpMu.RUnlock()
+	select {
+	case <-s.aborted:
+		return false, nil
+	default:
+	}
 	select {
 	case s.srv.In() <- m:
 		return true, nil
@@ -161,4 +177,24 @@ func isAborted(s *session) bool {
 	default:
 		return false
 	}
+}
+
+// keepalives counts the keepalive responses of the peer that the server has read completely.
+func (s *session) keepalives() int {
+	log, consumed := s.fromAgent.Consumed()
+	n := 0
+	for off := 0; off < consumed; {
+		size, k := binary.Uvarint(log[off:])
+		if k <= 0 || off+k+int(size) > consumed {
+			break
+		}
+		var r agent.Response
+		if proto.Unmarshal(log[off+k:off+k+int(size)], &r) == nil {
+			if _, ok := r.Message.(*agent.Response_Keepalive); ok {
+				n++
+			}
+		}
+		off += k + int(size)
+	}
+	return n
 }
